@@ -720,6 +720,23 @@ pub fn leaf(max_zoom: u8, pbf: bool, really_compressed: bool, max_side: u32) -> 
 	})
 }
 
+/// a versatiles leaf whose tiles are 3-5 KB each, in one rectangle of 10..=16 tiles per side: a
+/// box selecting few columns leaves more than 32 KiB of unselected tile data between
+/// consecutive selected tiles (the reader's chunking of byte ranges)
+pub fn leaf_chunky(max_zoom: u8) -> impl Strategy<Value = Leaf> {
+	(gen::level(max_zoom, 16), any::<u32>(), any::<bool>(), any::<u16>(), prop_oneof![3 => Just(Shape::Dense), 1 => (150u8..=230).prop_map(Shape::Sparse)]).prop_map(|(mut l, seed, enc, tag, shape)| {
+		let size = Coord::size(l.z).min(1 << 20) as u32;
+		l.w = l.w.max(10).min(size);
+		l.h = l.h.max(10).min(size);
+		let full = Coord::size(l.z);
+		l.x0 = (l.x0 as u64).min(full - l.w as u64) as u32;
+		l.y0 = (l.y0 as u64).min(full - l.h as u64) as u32;
+		l.shape = shape;
+		let spec = SetSpec { tag: format!("k{tag}"), levels: vec![l], pay: Pay::Random { lo: 3000, hi: 5000 }, format: Fmt::Png, comp: Comp::None, really_compressed: false, advert: Advert::Tight, meta: None };
+		Leaf { spec, kind: if enc { LeafKind::Enc(Target::Versatiles, seed) } else { LeafKind::Repo(Target::Versatiles) } }
+	})
+}
+
 /// leaves of every pair for versatiles/tar/dir/mem
 pub fn leaf_any_pair(max_zoom: u8, max_side: u32) -> impl Strategy<Value = Leaf> {
 	let mut cfg = GenCfg::small(gen::all_pairs());
